@@ -601,8 +601,17 @@ def do_backup(options):
         do_full_backup(options)
         return
     srcsz = os.path.getsize(options.file)
-    if options.quick:
+    quick = options.quick
+    if quick:
         fn, startpos, endpos, sum = scandat(repofiles)
+        if fn is not None and startpos == endpos:
+            # The last incremental is empty (a backup was made while only
+            # an unfinished transaction followed the backed-up data): its
+            # checksum says nothing about the source file, e.g. whether it
+            # was packed since.  Do the accurate comparison instead.
+            log('last incremental is empty (no quick check possible)')
+            quick = False
+    if quick:
         # If the .dat file was missing, or was empty, do a full backup
         if (fn, startpos, endpos, sum) == (None, None, None, None):
             log('missing or empty .dat file (full backup)')
